@@ -65,7 +65,7 @@ class C23(Property):
         "IEEE: theorems are over the reals; float64 twin vs Python to 1e-9, float32 runs to 1e-4; bounds on the real kernels are checked "
         "with a rounding allowance of 1e-6 (float32) / 1e-12 (float64)",
     ]
-    assumptions = ["wiener_snr = 0 (default); the Wiener branch is outside the property's quantifier",
+    assumptions = ["theorems ctf_le_aperture* are for wiener_snr = 0 (default); wiener_snr != 0 is the known finding ctf-wiener-filter-exceeds-aperture-bound",
                    "angular spread >= 0 (a negative spread amplifies: theorem spatial_negative_spread_ge_one)"]
     rule = ("explicit 3x4 (alpha, phi) arrays with alpha concentrated within ±1 pixel of the cutoff, random cutoffs/samplings/energies/"
             "focal and angular spreads and random subsets of the 25 aberration coefficients; float64 and float32 precision; "
@@ -95,7 +95,7 @@ class C23(Property):
                      energy=fx(rng.choice([60e3, 100e3, 200e3, 300e3])), gpts=gp, extent=[fx(rng.uniform(6, 20)), fx(rng.uniform(6, 20))])
         elif kind == "temporal":
             c.update(energy=fx(rng.choice([60e3, 100e3, 200e3, 300e3])), focal=fx(rng.choice([rng.uniform(0, 120), -rng.uniform(0, 60), 0.0])))
-        elif kind in ("spatial", "dchi"):
+        elif kind == "spatial":
             c.update(energy=fx(rng.choice([60e3, 100e3, 200e3, 300e3])), spread=fx(rng.choice([rng.uniform(0, 3), 0.0, rng.uniform(0, 0.3)])),
                      coeffs={k: fx(v) for k, v in gen_coeffs(rng, rng.choice([0.2, 0.5, 1.0])).items()})
         return c
@@ -126,7 +126,7 @@ class C23(Property):
                 te = tr.TemporalEnvelope(focal_spread=ufx(c["focal"]), energy=ufx(c["energy"]))
                 out = te._evaluate_from_angular_grid(alpha, phi)
                 extra["wavelength"] = float(te.wavelength)
-            elif k in ("spatial", "dchi"):
+            elif k == "spatial":
                 se = tr.SpatialEnvelope(angular_spread=ufx(c["spread"]), aberration_coefficients={s: ufx(v) for s, v in c["coeffs"].items()},
                                         energy=ufx(c["energy"]))
                 out = se._evaluate_from_angular_grid(alpha, phi)
@@ -196,7 +196,7 @@ class C23(Property):
                 ap = tr.Aperture(ufx(c["cutoff"]), soft=c["soft"], energy=energy, **grid)
                 alpha, phi = ap._angular_grid("cpu")
                 k = np.asarray(ap._evaluate_kernel())
-                if k.min() < 0 or k.max() > 1:
+                if not (k.min() >= 0 and k.max() <= 1):
                     return ctx.violation("aperture-out-of-unit-interval", c, {"min": float(k.min()), "max": float(k.max())})
                 cut = ufx(c["cutoff"]) * 1e-3
                 half = (max(ap.angular_sampling) * 1e-3 / 2 if c["soft"] else 0.0) * (1 + 1e-6) + (1e-9 if c["precision"] == "float32" else 0)
@@ -215,7 +215,7 @@ class C23(Property):
                     for line, width, name in ((k[1:, 0], s0, "first"), (k[0, 1:], s1, "second")):
                         a_line = alpha[1:, 0] if name == "first" else alpha[0, 1:]
                         expl = np.clip((cut - a_line.astype(np.float64)) / width + 0.5, 0, 1)
-                        if np.abs(line - expl).max() > tolr:
+                        if not (np.abs(line - expl).max() <= tolr):
                             return ctx.violation("soft-aperture-edge-width-does-not-follow-the-sampling-of-its-axis", c,
                                                  {"axis": name, "max_abs_diff": float(np.abs(line - expl).max())})
                 if not c["soft"] and not np.all(np.isin(k, (0.0, 1.0))):
@@ -233,7 +233,7 @@ class C23(Property):
                 if h.tolist() != [[1.0, 1.0, 0.0], [1.0, 0.0, 0.0]]:
                     return ctx.violation("hard-aperture-not-one-up-to-and-including-the-cutoff", c, {"observed": h.tolist()})
                 s = np.asarray(tr.soft_aperture(alpha.copy(), phi.copy(), cut, (a0, a1)))
-                if s.min() < 0 or s.max() > 1:
+                if not (s.min() >= 0 and s.max() <= 1):
                     return ctx.violation("aperture-out-of-unit-interval", c, {"observed": s.tolist()})
                 if s[0, 0] != 1.0 or (cut - 1.001 * half >= 0 and s[1, 0] != 1.0):
                     return ctx.violation("soft-aperture-plateau-not-one", c, {"observed": s.tolist()})
@@ -246,10 +246,10 @@ class C23(Property):
                 ph2 = np.array([[0.0, 0.0, np.pi], [np.pi / 2, -np.pi / 2, 0.0]], dtype=dt)
                 s2 = np.asarray(tr.soft_aperture(al2.copy(), ph2.copy(), cut, (a0, a1)), dtype=np.float64)
                 exp2 = np.array([[1.0, 0.5 - u, 0.5 + u], [0.5 - u, 0.5 + u, 0.5]])
-                if np.abs(s2 - exp2).max() > (1e-9 if c["precision"] == "float64" else 2e-3):
+                if not (np.abs(s2 - exp2).max() <= (1e-9 if c["precision"] == "float64" else 2e-3)):
                     return ctx.violation("soft-aperture-edge-width-does-not-follow-the-sampling-of-its-axis", c,
                                          {"observed": s2.tolist(), "expected": exp2.tolist()})
-                if abs(s[0, 1] - 0.5) > 1e-6:
+                if not (abs(s[0, 1] - 0.5) <= 1e-6):
                     return ctx.violation("soft-aperture-not-one-half-at-the-cutoff", c, {"observed": s.tolist()})
             elif chk == "cutoff-ensemble":
                 # "all cutoffs": a distribution of cutoffs gives one aperture per member, each equal to the scalar run
@@ -271,24 +271,33 @@ class C23(Property):
                     return ctx.violation(f"{kind}-aperture-ensemble-of-cutoffs-raises", c, {"error": f"{type(e).__name__}: {e}"[:300]})
                 if k.shape != (len(vals),) + ks[0].shape or any(not np.array_equal(k[i], ks[i]) for i in range(len(vals))):
                     return ctx.violation("aperture-ensemble-member-differs-from-scalar-run", c, {"shape": list(k.shape)})
-                if k.min() < 0 or k.max() > 1:
+                if not (k.min() >= 0 and k.max() <= 1):
                     return ctx.violation("aperture-out-of-unit-interval", c, {"min": float(k.min()), "max": float(k.max())})
             elif chk == "other-apertures":
                 # every BaseAperture subclass: |transmission| <= 1 (complex phase plates included); only `Aperture` is covered by theorems
                 cut = ufx(c["cutoff"])
                 r = [ufx(v) for v in c["r"]]
                 mk = {
-                    "Bullseye": lambda: tr.Bullseye(1 + int(r[0] * 6), 0.5 + 5 * r[1], 1 + int(r[2] * 4), 0.2 * cut * (0.2 + r[3]), cut, energy=energy, **grid),
-                    "Vortex": lambda: tr.Vortex(int(r[0] * 7) - 3, cut, energy=energy, **grid),
+                    "Bullseye": lambda: tr.Bullseye(1 + int(r[0] * 6), 0.5 + 5 * r[1], 1 + int(r[2] * 4), 0.2 * cut * (0.2 + r[3]), cut, energy=energy,
+                                                edge_softness=(3 * r[4] if c["softedge"] else 0.0), corner_radius=(2 * r[5] if c["corner"] else 0.0), **grid),
+                    "Vortex": lambda: tr.Vortex(int(r[0] * 7) - 3, cut, energy=energy, soft=c["softedge"], **grid),
                     "AnnularAperture": lambda: tr.AnnularAperture(cut * r[0], cut, energy=energy, **grid),
                     "Zernike": lambda: tr.Zernike(cut * r[0] * 0.5, (r[1] - 0.5) * 2 * math.pi, cut, energy=energy, **grid),
                     "RadialPhasePlate": lambda: tr.RadialPhasePlate(1 + int(r[0] * 5), cut, phase_shift=(r[1] - 0.5) * 2 * math.pi, energy=energy, **grid),
                 }[c["cls"]]
-                k = np.asarray(mk()._evaluate_kernel())
+                obj = mk()
+                k = np.asarray(obj._evaluate_kernel())
+                # hard edge convention shared with `Aperture`: the angle exactly on the cutoff is transmitted, the next float is blocked
+                if c["cls"] in ("Vortex", "AnnularAperture", "Zernike") and not (c["cls"] == "Vortex" and c["softedge"]):
+                    edge = cut / 1e3
+                    al = np.array([[0.5 * edge, np.nextafter(edge, 0.0), edge, np.nextafter(edge, 1.0), 1.5 * edge]])
+                    t = np.abs(np.asarray(obj._evaluate_from_angular_grid(al, np.zeros_like(al))))
+                    if not (np.abs(t[0, 1:3] - 1.0).max() <= (1e-12 if c["precision"] == "float64" else 1e-6)) or t[0, 3:].tolist() != [0.0, 0.0]:
+                        return ctx.violation(f"{c['cls']}-hard-edge-is-not-one-up-to-and-including-the-cutoff", c, {"observed": t.tolist()})
                 m = np.abs(k)
-                if not np.isfinite(m).all() or m.max() > 1 + (1e-12 if c["precision"] == "float64" else 1e-6):
+                if not np.isfinite(m).all() or not (m.max() <= 1 + (1e-12 if c["precision"] == "float64" else 1e-6)):
                     return ctx.violation(f"{c['cls']}-transmission-exceeds-one", c, {"max_abs": float(m.max())})
-                if not np.iscomplexobj(k) and k.min() < 0:
+                if not np.iscomplexobj(k) and not (k.min() >= 0):
                     return ctx.violation(f"{c['cls']}-transmission-negative", c, {"min": float(k.min())})
             elif chk == "ctf-wiener":
                 # wiener_snr != 0: the Wiener expression is applied to the complex transfer function and is NOT bounded by the aperture
@@ -297,30 +306,85 @@ class C23(Property):
                 kw = dict(semiangle_cutoff=ufx(c["cutoff"]), soft=c["soft"], energy=energy, focal_spread=ufx(c["focal"]),
                           angular_spread=ufx(c["spread"]), aberration_coefficients={s: ufx(v) for s, v in c["coeffs"].items()}, **grid)
                 a = np.asarray(tr.Aperture(ufx(c["cutoff"]), soft=c["soft"], energy=energy, **grid)._evaluate_kernel())
-                plain = np.abs(np.asarray(tr.CTF(**kw)._evaluate_kernel()))
-                if np.any(plain > a + eps):
+                plain_c = np.asarray(tr.CTF(**kw)._evaluate_kernel()).astype(np.complex128)
+                plain = np.abs(plain_c)
+                if not np.all(plain <= a + eps):
                     return ctx.violation("ctf-transmits-more-than-its-aperture", c, {"max_excess": float((plain - a).max())})
-                w = np.abs(np.asarray(tr.CTF(wiener_snr=ufx(c["snr"]), **kw)._evaluate_kernel()))
-                if not np.isfinite(w).all() or np.any(w > a + eps):
-                    i = int(np.nanargmax(np.where(np.isfinite(w), w - a, np.inf)))
+                snr = ufx(c["snr"])
+                w_c = np.asarray(tr.CTF(wiener_snr=snr, **kw)._evaluate_kernel()).astype(np.complex128)
+                # the recorded defect is exactly: the Wiener expression applied to the complex unfiltered transfer function.  Anything else
+                # in this branch (aperture dropped, NaN, other prefactor …) is a different failure and gets its own key.
+                with np.errstate(all="ignore"):
+                    exp = (1 + 1 / snr) * plain_c ** 2 / (plain_c ** 2 + 1 / snr)
+                tolw = (1e-9 if c["precision"] == "float64" else 2e-3) * (1 + np.abs(exp))
+                same = np.where(np.isfinite(exp), np.abs(w_c - exp) <= tolw, ~np.isfinite(w_c))
+                if w_c.shape != exp.shape or not np.all(same):
+                    return ctx.violation("ctf-wiener-branch-is-not-the-filter-of-the-unfiltered-ctf", c,
+                                         {"mismatching_pixels": int((~same).sum()) if w_c.shape == exp.shape else "shape"})
+                w = np.abs(w_c)
+                if not np.all(w <= a + eps):
+                    bad = ~(w <= a + eps)
+                    i = int(np.flatnonzero(bad.reshape(-1))[0])
                     return ctx.violation("ctf-wiener-filter-exceeds-aperture-bound", c,
-                                         {"ctf_abs": float(w.reshape(-1)[i]), "aperture": float(a.reshape(-1)[i]), "wiener_snr": ufx(c["snr"])})
+                                         {"ctf_abs": float(w.reshape(-1)[i]), "aperture": float(a.reshape(-1)[i]), "wiener_snr": snr,
+                                          "recorded_formula_value": [float(exp.reshape(-1)[i].real), float(exp.reshape(-1)[i].imag)]})
+            elif chk == "ctf-ensemble":
+                # distributions of cutoff x focal spread x angular spread x one aberration: member == scalar run, |member| <= its aperture
+                import abtem
+                from itertools import product
+
+                co = {s_: ufx(v) for s_, v in c["coeffs"].items()}
+                dist = {k_: [ufx(v) for v in vs] for k_, vs in c["dists"].items()}
+
+                def val(name, scalar):
+                    return abtem.distributions.from_values(dist[name]) if name in dist else scalar
+
+                sym = c["symbol"]
+                coe = dict(co)
+                coe[sym] = val(sym, co.get(sym, 0.0))
+                ctf = tr.CTF(semiangle_cutoff=val("semiangle_cutoff", ufx(c["cutoff"])), soft=c["soft"], energy=energy,
+                             focal_spread=val("focal_spread", ufx(c["focal"])), angular_spread=val("angular_spread", ufx(c["spread"])),
+                             aberration_coefficients=coe, **grid)
+                k = np.asarray(ctf._evaluate_kernel())
+                # axis order of the code: aberration coefficients, angular spread (spatial envelope), focal spread, cutoff; the envelope axes
+                # carry no label, so the axes are identified by this order and confirmed through their values
+                labels = [n for n in (sym, "angular_spread", "focal_spread", "semiangle_cutoff") if n in dist]
+                axes = ctf.ensemble_axes_metadata
+                if len(axes) != len(labels) or k.shape[:len(labels)] != tuple(len(dist[l]) for l in labels) or any(
+                        not np.allclose(np.asarray(ax.values, dtype=float), dist[l], rtol=1e-6) for ax, l in zip(axes, labels)):
+                    return ctx.violation("ctf-ensemble-axes-do-not-match-the-distributions", c,
+                                         {"expected_order": labels, "shape": list(k.shape), "axis_labels": [ax.label for ax in axes]})
+                for idx in product(*[range(len(dist[l])) for l in labels]):
+                    pick = {l: dist[l][i] for l, i in zip(labels, idx)}
+                    coi = dict(co)
+                    if sym in pick:
+                        coi[sym] = pick[sym]
+                    cut_i = pick.get("semiangle_cutoff", ufx(c["cutoff"]))
+                    one = np.asarray(tr.CTF(semiangle_cutoff=cut_i, soft=c["soft"], energy=energy, focal_spread=pick.get("focal_spread", ufx(c["focal"])),
+                                            angular_spread=pick.get("angular_spread", ufx(c["spread"])), aberration_coefficients=coi,
+                                            **grid)._evaluate_kernel())
+                    tole = 1e-9 if c["precision"] == "float64" else 3e-3
+                    if not (np.abs(k[idx] - one).max() <= tole):
+                        return ctx.violation("ctf-ensemble-member-differs-from-scalar-run", c, {"member": list(idx), "labels": labels})
+                    ap = np.asarray(tr.Aperture(cut_i, soft=c["soft"], energy=energy, **grid)._evaluate_kernel())
+                    if not np.all(np.abs(k[idx]) <= ap + eps):
+                        return ctx.violation("ctf-transmits-more-than-its-aperture", c, {"member": list(idx)})
             elif chk == "temporal-kernel":
                 te = tr.TemporalEnvelope(focal_spread=ufx(c["focal"]), energy=energy, **grid)
                 alpha, phi = te._angular_grid("cpu")
                 k = np.asarray(te._evaluate_kernel())
-                if k.min() < 0 or k.max() > 1:
+                if not (k.min() >= 0 and k.max() <= 1):
                     return ctx.violation("temporal-envelope-out-of-unit-interval", c, {"min": float(k.min()), "max": float(k.max())})
                 if k[0, 0] != 1.0:
                     return ctx.violation("temporal-envelope-not-one-at-zero-angle", c, {"value": float(k[0, 0])})
                 order = np.argsort(alpha.reshape(-1), kind="stable")
-                if np.any(np.diff(k.reshape(-1)[order]) > eps):
+                if not np.all(np.diff(k.reshape(-1)[order]) <= eps):
                     return ctx.violation("temporal-envelope-increases-with-angle", c, {})
             elif chk == "spatial-kernel":
                 se = tr.SpatialEnvelope(angular_spread=ufx(c["spread"]), aberration_coefficients={s: ufx(v) for s, v in c["coeffs"].items()},
                                         energy=energy, **grid)
                 k = np.asarray(se._evaluate_kernel())
-                if k.min() < 0 or k.max() > 1:
+                if not (k.min() >= 0 and k.max() <= 1):
                     return ctx.violation("spatial-envelope-out-of-unit-interval", c, {"min": float(k.min()), "max": float(k.max())})
                 if k[0, 0] != 1.0:
                     return ctx.violation("spatial-envelope-not-one-at-zero-angle", c, {"value": float(k[0, 0])})
@@ -339,7 +403,7 @@ class C23(Property):
                 kk = 2 * np.pi / se.wavelength
                 exp = np.exp(-(ufx(c["spread"]) * 1e-3 / 2) ** 2 * ((kk * da) ** 2 + (kk * dp) ** 2))
                 got = np.asarray(se._evaluate_from_angular_grid(alpha, phi), dtype=np.float64)
-                if np.abs(got - exp).max() > (1e-9 if c["precision"] == "float64" else 1e-3):
+                if not (np.abs(got - exp).max() <= (1e-9 if c["precision"] == "float64" else 1e-3)):
                     return ctx.violation("spatial-envelope-is-not-the-gradient-of-the-aberration-function", c,
                                          {"max_abs_diff": float(np.abs(got - exp).max())})
             elif chk == "ctf-kernel":
@@ -352,11 +416,11 @@ class C23(Property):
                     a = np.ones_like(k)
                 else:
                     a = np.asarray(tr.Aperture(ufx(c["cutoff"]), soft=c["soft"], energy=energy, **grid)._evaluate_kernel())
-                if np.any(k > a + eps):
+                if not np.all(k <= a + eps):
                     i = int(np.argmax(k - a))
                     return ctx.violation("ctf-transmits-more-than-its-aperture", c,
                                          {"ctf_abs": float(k.reshape(-1)[i]), "aperture": float(a.reshape(-1)[i])})
-                if abs(k[0, 0] - 1.0) > 10 * eps:
+                if not (abs(k[0, 0] - 1.0) <= 10 * eps):
                     return ctx.violation("ctf-modulus-not-one-at-zero-angle", c, {"value": float(k[0, 0])})
                 # the CTF is exactly the product of its components (the hand glue `ctfModel`), flip_phase keeps the modulus
                 co = {s: ufx(v) for s, v in c["coeffs"].items()}
@@ -371,7 +435,7 @@ class C23(Property):
                 if c["flip"]:
                     prod = prod.real - 1j * np.abs(prod.imag)
                 tolp = 1e-9 if c["precision"] == "float64" else 2e-3
-                if full.shape != prod.shape or np.abs(full - prod).max() > tolp:
+                if full.shape != prod.shape or not (np.abs(full - prod).max() <= tolp):
                     return ctx.violation("ctf-is-not-the-product-of-aberrations-envelopes-and-aperture", c,
                                          {"max_abs_diff": float(np.abs(full - prod).max()) if full.shape == prod.shape else "shape"})
             else:
@@ -385,18 +449,30 @@ class C23(Property):
         if chk == "cutoff-ensemble":
             c.update(cutoffs=[fx(rng.uniform(1.0, 45.0)) for _ in range(rng.randint(1, 3))], grid=rng.random() < 0.7)
         if chk == "other-apertures":
-            c.update(cls=rng.choice(["Bullseye", "Vortex", "AnnularAperture", "Zernike", "RadialPhasePlate"]), r=[fx(rng.random()) for _ in range(4)])
+            c.update(cls=rng.choice(["Bullseye", "Vortex", "AnnularAperture", "Zernike", "RadialPhasePlate"]), r=[fx(rng.random()) for _ in range(6)], softedge=rng.random() < 0.5, corner=rng.random() < 0.5)
+        if chk == "ctf-ensemble":
+            c["precision"] = rng.choice(["float64", "float64", "float32"])
+            c["focal"], c["spread"] = fx(rng.uniform(5, 100)), fx(rng.uniform(0.1, 2))
+            c["gpts"] = [rng.randint(6, 12), rng.randint(6, 12)]
+            sym = rng.choice(["C10", "C12", "phi12", "C30", "C21"])
+            c["symbol"] = sym
+            names = rng.sample(["semiangle_cutoff", "focal_spread", "angular_spread", sym], rng.randint(1, 3))
+            mk = {"semiangle_cutoff": lambda: rng.uniform(3, 40), "focal_spread": lambda: rng.uniform(5, 100), "angular_spread": lambda: rng.uniform(0.1, 2),
+                  sym: lambda: rng.uniform(-1, 1) * (math.pi if sym.startswith("phi") else SCALE[int(sym[1])] * (0.01 if c["precision"] == "float32" else 1))}
+            c["dists"] = {n: [fx(mk[n]()) for _ in range(rng.randint(1, 3))] for n in names}
+            if c["precision"] == "float32":
+                c["coeffs"] = {}
         if chk == "ctf-wiener":
             c["snr"] = fx(rng.choice([1.0, rng.uniform(0.2, 10.0), 4.0]))
         if chk == "explicit-angles":
             c.update(a0=fx(rng.uniform(0.2, 3.0)), a1=fx(rng.uniform(0.2, 3.0)), phi=fx(rng.uniform(-math.pi, math.pi)))
-        if chk in ("temporal-kernel", "ctf-kernel", "ctf-wiener"):
+        if chk in ("temporal-kernel", "ctf-kernel", "ctf-wiener", "ctf-ensemble"):
             c["focal"] = fx(rng.choice([rng.uniform(0, 150), 0.0, -rng.uniform(0, 50)]))
         if chk == "spatial-gradient":
             c["precision"] = "float64"
             c["alpha"] = [fx(rng.uniform(0, 0.03)) for _ in range(12)]
             c["phi"] = [fx(rng.uniform(-math.pi, math.pi)) for _ in range(12)]
-        if chk in ("spatial-kernel", "ctf-kernel", "spatial-gradient", "ctf-wiener"):
+        if chk in ("spatial-kernel", "ctf-kernel", "spatial-gradient", "ctf-wiener", "ctf-ensemble"):
             c["spread"] = fx(rng.choice([rng.uniform(0, 4), 0.0, rng.uniform(0, 0.5)]))
             c["coeffs"] = {k: fx(v) for k, v in gen_coeffs(rng, rng.choice([0.15, 0.5, 1.0])).items()}
         if chk == "ctf-kernel":
@@ -407,7 +483,7 @@ class C23(Property):
 
     def conformance(self, ctx: Ctx):
         for chk, n in (("explicit-angles", ctx.n(40, 800)), ("cutoff-ensemble", ctx.n(30, 500)), ("aperture-kernel", ctx.n(80, 1500)), ("temporal-kernel", ctx.n(40, 800)),
-                       ("spatial-kernel", ctx.n(50, 1000)), ("spatial-gradient", ctx.n(50, 1000)), ("ctf-kernel", ctx.n(80, 1500)), ("other-apertures", ctx.n(60, 1200)), ("ctf-wiener", ctx.n(12, 100))):
+                       ("spatial-kernel", ctx.n(50, 1000)), ("spatial-gradient", ctx.n(50, 1000)), ("ctf-kernel", ctx.n(80, 1500)), ("other-apertures", ctx.n(60, 1200)), ("ctf-wiener", ctx.n(12, 100)), ("ctf-ensemble", ctx.n(25, 400))):
             for _ in range(n):
                 c = self.gen_conf(ctx, chk)
                 self.oracle(ctx, c)
